@@ -104,3 +104,10 @@ def line_of(body, bb=None, stmt=None):
     if not sp:
         sp = body.j["sp"]
     return sp["l"]
+
+
+def param_of_type(body, prefix, exact=None):
+    """1-based position of the only parameter whose type text starts with `prefix` (None if there is none or more than one):
+    rules identify the parameters of private functions by type, so that reordering a private signature is not an alarm."""
+    hits = [q for q in range(1, body.arg_count + 1) if body.locals[q]["ty"]["s"].startswith(prefix) and (exact is None or body.locals[q]["ty"]["s"] == exact)]
+    return hits[0] if len(hits) == 1 else None
